@@ -172,7 +172,7 @@ def both(ctx, stores):
 
 
 def run(ctx):
-    generic.run(ctx, "C03+C03dyn", ["dir", "dead", "term1", "markup", "term2", "live"],
+    generic.run(ctx, "C03+C03dyn+C03lbl", ["dir", "dead", "term1", "markup", "term2", "live"],
                 dict(conforming=30, flow=120, random=60, injected=30, handlers=20, cutflow=60, labeldir=40), oracle=both, what="CFG construction")
 
 
